@@ -787,6 +787,12 @@ class BayesianProblem(object):
 
         x_MAP, solver_info = solver.solve()
 
+        # A point where the density vanishes or is undefined is not an estimate: the optimisation could not
+        # leave its start point (e.g. a start on the boundary of the support) or broke down
+        if not np.all(np.isfinite(np.asarray(func(x_MAP), dtype=float))):
+            raise RuntimeError(f"The optimisation did not produce a point of positive {density.__class__.__name__} density "
+                               f"(solver message: {solver_info.get('message', '')}). Try another starting point x0.")
+
         # Add info on solver choice
         solver_info["solver"] = "L-BFGS-B"
 
